@@ -79,6 +79,25 @@ Example c13_content_hyp_sat :
        o_decodeErrors := 0; o_end := Ok tt |}.
 Proof. exact valid_plays. Qed.
 
+(* The proposed repair (findings/C13-*.json: drop init tracks codecs.FromFMP4 does not know, reject
+   time scale 0) makes the FULL statement true: for the model of the repaired code no hypothesis
+   on the media content is left - every codec tag incl. a nil Codec, empty inits, any time
+   scale. Only the playlist's structural guarantee remains. (The pinned tree is [client_run];
+   Tie.repo_repaired says which of the two the correspondence run compares with /repo.) *)
+Theorem c13_content_no_panic_after_repair : forall sc el,
+  structural_ok (sc_primary sc) = true -> is_panic (o_end (client_run_fixed sc el)) = false.
+Proof. exact client_run_fixed_np. Qed.
+Print Assumptions c13_content_no_panic_after_repair.
+
+Example c13_repair_on_witnesses :
+  client_run_fixed witness_unsupported_codec 0 = fail_outcome (Err ENoSupportedTracks) /\
+  client_run_fixed witness_zero_timescale 0 = fail_outcome (Err EInvalidTimeScale) /\
+  client_run_fixed witness_valid 0 = client_run witness_valid 0 /\
+  client_run_fixed (one_stream [{| it_id := 1; it_timescale := 90000; it_codec := FH264 |};
+                                {| it_id := 2; it_timescale := 48000; it_codec := FAC3 |}] [1; 2]) 0 =
+    {| o_tracks := Some [Some GH264]; o_counts := [[1%nat]]; o_decodeErrors := 0; o_end := Ok tt |}.
+Proof. exact repaired_on_witnesses. Qed.
+
 (* mc_wf is load-bearing too (the repo's code indexes init.Tracks[0] and calls Codec.IsVideo()
    unguarded); the harness checks on every parsed init that mediacommon keeps this promise *)
 Example c13_needs_parser_guarantees :
@@ -114,6 +133,11 @@ Print Assumptions c13_mpegts_tracks_supported.
 Theorem c13_no_busy_loop : forall sc el, is_oof (o_end (client_run sc el)) = false.
 Proof. exact client_run_noof. Qed.
 Print Assumptions c13_no_busy_loop.
+
+Theorem c13_no_busy_loop_any_tree : forall repaired sc el,
+  is_oof (o_end (client_run_gen repaired sc el)) = false.
+Proof. exact client_run_gen_noof. Qed.
+Print Assumptions c13_no_busy_loop_any_tree.
 
 Theorem c13_no_busy_loop_fmp4_run : forall queue fuel p c el counts,
   (List.length queue < fuel)%nat -> is_oof (fmp4_run_loop fuel p c el queue counts) = false.
